@@ -177,6 +177,22 @@ func (P *Prog) verifyFunc(key string, c11 bool) (res *FuncResult) {
 			p, alt := x.evalBoolAlt(post, c.Expr)
 			x.obligeAlt(fr, r.st, "ensures:"+c.Label+sfx, "ensures", p, alt, c)
 		}
+		for _, c := range spec.EnsuresLocal {
+			// skipped at returns the locals it names do not reach (the code that
+			// defines them was not executed on that path)
+			func() {
+				defer func() {
+					if e := recover(); e != nil {
+						if ee, ok := e.(execError); ok && (strings.Contains(fmt.Sprint(ee), "unknown identifier") || strings.Contains(fmt.Sprint(ee), "cannot use")) {
+							return
+						}
+						panic(e)
+					}
+				}()
+				p, alt := x.evalBoolAlt(post, c.Expr)
+				x.obligeAlt(fr, r.st, "ensureslocal:"+c.Label+sfx, "ensures", p, alt, c)
+			}()
+		}
 	}
 	// which blocks can reach which (for slicing the per-obligation scripts)
 	x.em.anc = ancestors(fn)
